@@ -6,6 +6,7 @@ import Model.Store
 import Model.Enfold
 import Model.CachedGuard
 import Model.Migration
+import Model.InquiryEq
 /-!
 # `vaktdrv`: one case per line in, one result per line out
 -/
@@ -235,6 +236,14 @@ def handle (toks : List String) : Option String :=
     let (orders, ts) ← pCounted pNat ts
     let reqs ← full (pCounted pMigReq ts)
     pure (" | ".intercalate (runMig orders Vakt.Migration.initial reqs))
+  | "INQEQ" :: ts => do
+    let (a, ts) ← pInquiry ts
+    let b ← full (pInquiry ts)
+    if !(Vakt.wf a.canon && Vakt.wf b.canon) then pure "unmodelled" else
+    pure ("ok " ++ showB (a.eqv b))
+  | "CANON" :: ts => do
+    let v ← full (pVal ts)
+    pure ("ok " ++ showVal (Vakt.canon v))
   | "POBJ" :: ts => do
     let (ctor, ts) ← pCounted pAssign ts
     let steps ← full (pCounted pAssign ts)
